@@ -461,6 +461,27 @@ pub fn run_decode(ctx: &mut Ctx, args: &[String]) {
     });
 }
 
+/// `decode_alloc <hex> <max_constraints>`: the compressed-circuit decoder of the real build on
+/// concrete bytes; reports the outcome and the largest single allocation request made during
+/// the call (the counting allocator aborts with `ALLOC_REQUEST <bytes>` on stderr above 1 GiB).
+pub fn run_decode_alloc(ctx: &mut Ctx, args: &[String]) {
+    use std::sync::atomic::Ordering;
+    let h = args[0].clone();
+    let m: usize = args[1].parse().unwrap();
+    let bytes: Vec<u8> = (0..h.len() / 2).map(|i| u8::from_str_radix(&h[2 * i..2 * i + 2], 16).unwrap()).collect();
+    crate::counting_alloc::PEAK_REQUEST.store(0, Ordering::Relaxed);
+    let r = std::panic::catch_unwind(std::panic::AssertUnwindSafe(|| {
+        Composer::verif_decompress(&bytes, m).map(|c| c.constraints())
+    }));
+    let peak = crate::counting_alloc::PEAK_REQUEST.load(Ordering::Relaxed);
+    ctx.out_json("peak_request_bytes", json!(peak));
+    ctx.out_json("outcome", match r {
+        Ok(Ok(n)) => json!(format!("Ok({n})")),
+        Ok(Err(e)) => json!(format!("Err({:?})", e)),
+        Err(_) => json!("PANIC"),
+    });
+}
+
 // ---------------------------------------------------------------------------
 // Prover with symbolic WITNESS values (C05): satisfying family, one violated row,
 // one broken copy constraint
